@@ -368,6 +368,7 @@ def run(chk, repo, tier):
                               'gradient list (THETA before OMEGA vs alphabetical): sqrt(g\' C g) pairs gradient components '
                               'with the wrong rows')
     run_more(chk, repo)
+    run_n8(chk, repo)
 
 
 def run_more(chk, repo):
@@ -423,3 +424,38 @@ def run_more(chk, repo):
                                               'counted, BIC(mixed) is too low by log(n_individuals)')
     if n7 < 2:
         raise AnalysisError(f'N7: only {n7} move(s) between the groups recognised')
+
+
+def run_n8(chk, repo):
+    N8 = chk.rule('N8', 'bootstrap: parameter estimates of the replicates are combined by label, not by position', floor=1)
+    bm = repo.module('pharmpy.tools.bootstrap.results')
+    f = bm.functions.get('calculate_results')
+    if f is None:
+        raise AnalysisError('bootstrap calculate_results not found')
+    uses = [n for n in ast.walk(f.node) if isinstance(n, ast.Attribute) and n.attr == 'parameter_estimates']
+    if not uses:
+        raise AnalysisError('N8: parameter_estimates not used in calculate_results')
+    parent = {}
+    for n in ast.walk(f.node):
+        for c in ast.iter_child_nodes(n):
+            parent[c] = n
+    bad = []
+    for u in uses:
+        p = parent.get(u)
+        while p is not None and not isinstance(p, ast.stmt):
+            if isinstance(p, ast.Call):
+                fn = dotted(p.func) or ''
+                if fn.split('.')[-1] in ('vstack', 'array', 'stack', 'asarray', 'column_stack', 'hstack') \
+                        or (isinstance(p.func, ast.Attribute) and p.func.attr in ('to_numpy',)):
+                    bad.append((p, fn))
+            if isinstance(p, ast.Attribute) and p.attr == 'values' and p.value is u:
+                bad.append((p, '.values'))
+            p = parent.get(p)
+    chk.instance(N8, f'calculate_results: {len(uses)} uses of replicate.parameter_estimates; label-dropping combinations: '
+                     f'{[b[1] for b in bad]}')
+    for p, fn in bad[:1]:
+        chk.violation(N8, bm.rel, 'calculate_results', unparse(p)[:100],
+                      f'{fn} drops the parameter labels of the Series: replicates whose estimates are listed in another order '
+                      f'are combined by position', line=p.lineno,
+                      witness='one bootstrap replicate that lists SIGMA before the OMEGAs: its sigma is averaged with the others\' '
+                              'omegas in mean, bias, stderr and percentiles')
